@@ -33,53 +33,94 @@ func (e bankError) Error() string { return string(e) }
 // Bank is the model of the bank keeper: per (account, denom) balances and per-denom supply over
 // the integers; send/mint/burn with insufficient-funds errors; denom metadata.
 type Bank struct {
-	bal      []bankEntry
-	supply   map[string]sdkmath.Int
-	metas    []banktypes.Metadata
+	root     *MultiStore
 	Blocked  [][]byte
 	FailNext bool // the next state-changing call fails without effect (fault injection)
-	Ops      int  // number of state-changing calls that took effect
 }
 
-func NewBank() *Bank { return &Bank{supply: map[string]sdkmath.Int{}} }
+// bankState is the part of the bank model that branches and commits with the multistore.
+type bankState struct {
+	bal    []bankEntry
+	supply map[string]sdkmath.Int
+	metas  []banktypes.Metadata
+	ops    int // number of state-changing calls that took effect
+}
 
-func (b *Bank) find(addr []byte, denom string) int {
-	for i := range b.bal {
-		if b.bal[i].denom == denom && bytes.Equal(b.bal[i].addr, addr) {
+func (s *bankState) CopySide() Sidecar {
+	c := &bankState{supply: map[string]sdkmath.Int{}, ops: s.ops}
+	c.bal = append(c.bal, s.bal...)
+	c.metas = append(c.metas, s.metas...)
+	for k, v := range s.supply {
+		c.supply[k] = v
+	}
+	return c
+}
+
+// NewBank attaches a bank model to the multistore: its balances branch and commit with it.
+func NewBank(ms *MultiStore) *Bank {
+	ms.SetSide("bank", &bankState{supply: map[string]sdkmath.Int{}})
+	return &Bank{root: ms}
+}
+
+// state selects the branch the call with ctx runs on.
+func (b *Bank) state(ctx context.Context) *bankState {
+	ms, ok := sdk.UnwrapSDKContext(ctx).MultiStore().(*MultiStore)
+	if !ok {
+		panic("models.Bank: context without model multistore")
+	}
+	return ms.Side("bank").(*bankState)
+}
+
+func (b *Bank) rootState() *bankState { return b.root.Side("bank").(*bankState) }
+
+// Ops returns the number of committed state-changing calls.
+func (b *Bank) Ops() int { return b.rootState().ops }
+
+func (st *bankState) find(addr []byte, denom string) int {
+	for i := range st.bal {
+		if st.bal[i].denom == denom && bytes.Equal(st.bal[i].addr, addr) {
 			return i
 		}
 	}
 	return -1
 }
 
-// Balance returns the balance of addr in denom.
-func (b *Bank) Balance(addr []byte, denom string) sdkmath.Int {
-	if i := b.find(addr, denom); i >= 0 {
-		return b.bal[i].amt
+func (st *bankState) balance(addr []byte, denom string) sdkmath.Int {
+	if i := st.find(addr, denom); i >= 0 {
+		return st.bal[i].amt
 	}
 	return sdkmath.ZeroInt()
 }
 
-// SetBalance sets a balance and adjusts the supply accordingly (harness state construction).
-func (b *Bank) SetBalance(addr []byte, denom string, amt sdkmath.Int) {
-	old := b.Balance(addr, denom)
-	b.set(addr, denom, amt)
-	b.supply[denom] = b.Supply(denom).Add(amt).Sub(old)
-}
-
-func (b *Bank) set(addr []byte, denom string, amt sdkmath.Int) {
-	if i := b.find(addr, denom); i >= 0 {
-		b.bal[i].amt = amt
+func (st *bankState) set(addr []byte, denom string, amt sdkmath.Int) {
+	if i := st.find(addr, denom); i >= 0 {
+		st.bal[i].amt = amt
 		return
 	}
-	b.bal = append(b.bal, bankEntry{addr: clone(addr), denom: denom, amt: amt})
+	st.bal = append(st.bal, bankEntry{addr: clone(addr), denom: denom, amt: amt})
 }
 
-func (b *Bank) Supply(denom string) sdkmath.Int {
-	if s, ok := b.supply[denom]; ok {
+func (st *bankState) supplyOf(denom string) sdkmath.Int {
+	if s, ok := st.supply[denom]; ok {
 		return s
 	}
 	return sdkmath.ZeroInt()
+}
+
+// Balance returns the committed balance of addr in denom.
+func (b *Bank) Balance(addr []byte, denom string) sdkmath.Int {
+	return b.rootState().balance(addr, denom)
+}
+
+// Supply returns the committed supply of denom.
+func (b *Bank) Supply(denom string) sdkmath.Int { return b.rootState().supplyOf(denom) }
+
+// SetBalance sets a committed balance and adjusts the supply accordingly (harness state construction).
+func (b *Bank) SetBalance(addr []byte, denom string, amt sdkmath.Int) {
+	st := b.rootState()
+	old := st.balance(addr, denom)
+	st.set(addr, denom, amt)
+	st.supply[denom] = st.supplyOf(denom).Add(amt).Sub(old)
 }
 
 func (b *Bank) fail() bool {
@@ -90,7 +131,7 @@ func (b *Bank) fail() bool {
 	return false
 }
 
-func (b *Bank) move(from, to []byte, amt sdk.Coins) error {
+func (b *Bank) move(st *bankState, from, to []byte, amt sdk.Coins) error {
 	if b.fail() {
 		return bankError("bank: injected failure")
 	}
@@ -98,20 +139,20 @@ func (b *Bank) move(from, to []byte, amt sdk.Coins) error {
 		if c.Amount.IsNegative() {
 			return bankError("bank: negative amount")
 		}
-		if b.Balance(from, c.Denom).LT(c.Amount) {
+		if st.balance(from, c.Denom).LT(c.Amount) {
 			return bankError("bank: insufficient funds")
 		}
 	}
 	for _, c := range amt {
-		b.set(from, c.Denom, b.Balance(from, c.Denom).Sub(c.Amount))
-		b.set(to, c.Denom, b.Balance(to, c.Denom).Add(c.Amount))
+		st.set(from, c.Denom, st.balance(from, c.Denom).Sub(c.Amount))
+		st.set(to, c.Denom, st.balance(to, c.Denom).Add(c.Amount))
 	}
-	b.Ops++
+	st.ops++
 	return nil
 }
 
 func (b *Bank) SendCoins(ctx context.Context, from, to sdk.AccAddress, amt sdk.Coins) error {
-	return b.move(from, to, amt)
+	return b.move(b.state(ctx), from, to, amt)
 }
 
 func (b *Bank) SendCoinsFromModuleToAccount(ctx context.Context, module string, to sdk.AccAddress, amt sdk.Coins) error {
@@ -120,15 +161,15 @@ func (b *Bank) SendCoinsFromModuleToAccount(ctx context.Context, module string, 
 			return bankError("bank: blocked address")
 		}
 	}
-	return b.move(ModuleAddress(module), to, amt)
+	return b.move(b.state(ctx), ModuleAddress(module), to, amt)
 }
 
 func (b *Bank) SendCoinsFromAccountToModule(ctx context.Context, from sdk.AccAddress, module string, amt sdk.Coins) error {
-	return b.move(from, ModuleAddress(module), amt)
+	return b.move(b.state(ctx), from, ModuleAddress(module), amt)
 }
 
 func (b *Bank) SendCoinsFromModuleToModule(ctx context.Context, from, to string, amt sdk.Coins) error {
-	return b.move(ModuleAddress(from), ModuleAddress(to), amt)
+	return b.move(b.state(ctx), ModuleAddress(from), ModuleAddress(to), amt)
 }
 
 func (b *Bank) MintCoins(ctx context.Context, module string, amt sdk.Coins) error {
@@ -140,12 +181,13 @@ func (b *Bank) MintCoins(ctx context.Context, module string, amt sdk.Coins) erro
 			return bankError("bank: negative amount")
 		}
 	}
+	st := b.state(ctx)
 	m := ModuleAddress(module)
 	for _, c := range amt {
-		b.set(m, c.Denom, b.Balance(m, c.Denom).Add(c.Amount))
-		b.supply[c.Denom] = b.Supply(c.Denom).Add(c.Amount)
+		st.set(m, c.Denom, st.balance(m, c.Denom).Add(c.Amount))
+		st.supply[c.Denom] = st.supplyOf(c.Denom).Add(c.Amount)
 	}
-	b.Ops++
+	st.ops++
 	return nil
 }
 
@@ -153,30 +195,31 @@ func (b *Bank) BurnCoins(ctx context.Context, module string, amt sdk.Coins) erro
 	if b.fail() {
 		return bankError("bank: injected failure")
 	}
+	st := b.state(ctx)
 	m := ModuleAddress(module)
 	for _, c := range amt {
 		if c.Amount.IsNegative() {
 			return bankError("bank: negative amount")
 		}
-		if b.Balance(m, c.Denom).LT(c.Amount) {
+		if st.balance(m, c.Denom).LT(c.Amount) {
 			return bankError("bank: insufficient funds")
 		}
 	}
 	for _, c := range amt {
-		b.set(m, c.Denom, b.Balance(m, c.Denom).Sub(c.Amount))
-		b.supply[c.Denom] = b.Supply(c.Denom).Sub(c.Amount)
+		st.set(m, c.Denom, st.balance(m, c.Denom).Sub(c.Amount))
+		st.supply[c.Denom] = st.supplyOf(c.Denom).Sub(c.Amount)
 	}
-	b.Ops++
+	st.ops++
 	return nil
 }
 
 func (b *Bank) GetBalance(ctx context.Context, addr sdk.AccAddress, denom string) sdk.Coin {
-	return sdk.Coin{Denom: denom, Amount: b.Balance(addr, denom)}
+	return sdk.Coin{Denom: denom, Amount: b.state(ctx).balance(addr, denom)}
 }
 
 func (b *Bank) GetAllBalances(ctx context.Context, addr sdk.AccAddress) sdk.Coins {
 	var out sdk.Coins
-	for _, e := range b.bal {
+	for _, e := range b.state(ctx).bal {
 		if bytes.Equal(e.addr, addr) && e.amt.IsPositive() {
 			out = append(out, sdk.Coin{Denom: e.denom, Amount: e.amt})
 		}
@@ -189,7 +232,7 @@ func (b *Bank) SpendableCoins(ctx context.Context, addr sdk.AccAddress) sdk.Coin
 }
 
 func (b *Bank) GetSupply(ctx context.Context, denom string) sdk.Coin {
-	return sdk.Coin{Denom: denom, Amount: b.Supply(denom)}
+	return sdk.Coin{Denom: denom, Amount: b.state(ctx).supplyOf(denom)}
 }
 
 func (b *Bank) IsSendEnabledCoin(ctx context.Context, coin sdk.Coin) bool       { return true }
@@ -205,7 +248,7 @@ func (b *Bank) BlockedAddr(addr sdk.AccAddress) bool {
 }
 
 func (b *Bank) GetDenomMetaData(ctx context.Context, denom string) (banktypes.Metadata, bool) {
-	for _, m := range b.metas {
+	for _, m := range b.state(ctx).metas {
 		if m.Base == denom {
 			return m, true
 		}
@@ -219,19 +262,19 @@ func (b *Bank) HasDenomMetaData(ctx context.Context, denom string) bool {
 }
 
 func (b *Bank) SetDenomMetaData(ctx context.Context, md banktypes.Metadata) {
-	for i, m := range b.metas {
+	st := b.state(ctx)
+	st.ops++
+	for i, m := range st.metas {
 		if m.Base == md.Base {
-			b.metas[i] = md
-			b.Ops++
+			st.metas[i] = md
 			return
 		}
 	}
-	b.metas = append(b.metas, md)
-	b.Ops++
+	st.metas = append(st.metas, md)
 }
 
 func (b *Bank) IterateAllDenomMetaData(ctx context.Context, cb func(banktypes.Metadata) bool) {
-	for _, m := range b.metas {
+	for _, m := range b.state(ctx).metas {
 		if cb(m) {
 			return
 		}
@@ -248,16 +291,55 @@ type erc20Entry struct {
 
 // Erc20 models EvmERC20Keeper: balances and total supply per contract.
 type Erc20 struct {
-	bal      []erc20Entry
-	supply   []erc20Entry // holder unused
+	root     *MultiStore
 	FailNext bool
-	Ops      int
 	Decimals uint8
 }
 
-func NewErc20() *Erc20 { return &Erc20{Decimals: 18} }
+type erc20State struct {
+	bal    []erc20Entry
+	supply []erc20Entry // holder unused
+	ops    int
+}
 
-func (t *Erc20) find(contract, holder common.Address) int {
+func (s *erc20State) CopySide() Sidecar {
+	c := &erc20State{ops: s.ops}
+	c.bal = append(c.bal, s.bal...)
+	c.supply = append(c.supply, s.supply...)
+	return c
+}
+
+// NewErc20 attaches a token ledger to the multistore (it branches and commits with it).
+func NewErc20(ms *MultiStore) *Erc20 {
+	ms.SetSide("erc20", &erc20State{})
+	return &Erc20{root: ms, Decimals: 18}
+}
+
+func (t *Erc20) state(ctx context.Context) *erc20State {
+	ms, ok := sdk.UnwrapSDKContext(ctx).MultiStore().(*MultiStore)
+	if !ok {
+		panic("models.Erc20: context without model multistore")
+	}
+	return ms.Side("erc20").(*erc20State)
+}
+
+func (t *Erc20) rootState() *erc20State { return t.root.Side("erc20").(*erc20State) }
+
+// Ops returns the number of committed state-changing calls.
+func (t *Erc20) Ops() int { return t.rootState().ops }
+
+// BalanceOf / TotalSupply / SetBalance work on the committed state (harness side).
+func (t *Erc20) BalanceOf(contract, holder common.Address) *big.Int {
+	return t.rootState().BalanceOf(contract, holder)
+}
+func (t *Erc20) TotalSupply(contract common.Address) *big.Int {
+	return t.rootState().TotalSupply(contract)
+}
+func (t *Erc20) SetBalance(contract, holder common.Address, amt *big.Int) {
+	t.rootState().SetBalance(contract, holder, amt)
+}
+
+func (t *erc20State) find(contract, holder common.Address) int {
 	for i := range t.bal {
 		if t.bal[i].contract == contract && t.bal[i].holder == holder {
 			return i
@@ -266,14 +348,14 @@ func (t *Erc20) find(contract, holder common.Address) int {
 	return -1
 }
 
-func (t *Erc20) BalanceOf(contract, holder common.Address) *big.Int {
+func (t *erc20State) BalanceOf(contract, holder common.Address) *big.Int {
 	if i := t.find(contract, holder); i >= 0 {
 		return new(big.Int).Set(t.bal[i].amt)
 	}
 	return new(big.Int)
 }
 
-func (t *Erc20) TotalSupply(contract common.Address) *big.Int {
+func (t *erc20State) TotalSupply(contract common.Address) *big.Int {
 	for i := range t.supply {
 		if t.supply[i].contract == contract {
 			return new(big.Int).Set(t.supply[i].amt)
@@ -282,7 +364,7 @@ func (t *Erc20) TotalSupply(contract common.Address) *big.Int {
 	return new(big.Int)
 }
 
-func (t *Erc20) setBal(contract, holder common.Address, amt *big.Int) {
+func (t *erc20State) setBal(contract, holder common.Address, amt *big.Int) {
 	if i := t.find(contract, holder); i >= 0 {
 		t.bal[i].amt = amt
 		return
@@ -290,7 +372,7 @@ func (t *Erc20) setBal(contract, holder common.Address, amt *big.Int) {
 	t.bal = append(t.bal, erc20Entry{contract, holder, amt})
 }
 
-func (t *Erc20) setSupply(contract common.Address, amt *big.Int) {
+func (t *erc20State) setSupply(contract common.Address, amt *big.Int) {
 	for i := range t.supply {
 		if t.supply[i].contract == contract {
 			t.supply[i].amt = amt
@@ -301,7 +383,7 @@ func (t *Erc20) setSupply(contract common.Address, amt *big.Int) {
 }
 
 // SetBalance sets a holder's balance adjusting total supply (state construction).
-func (t *Erc20) SetBalance(contract, holder common.Address, amt *big.Int) {
+func (t *erc20State) SetBalance(contract, holder common.Address, amt *big.Int) {
 	old := t.BalanceOf(contract, holder)
 	t.setBal(contract, holder, new(big.Int).Set(amt))
 	s := t.TotalSupply(contract)
@@ -331,9 +413,10 @@ func (t *Erc20) ERC20Mint(ctx context.Context, contract, from, receiver common.A
 	if amount.Sign() < 0 {
 		return bankError("erc20: negative amount")
 	}
-	t.setBal(contract, receiver, new(big.Int).Add(t.BalanceOf(contract, receiver), amount))
-	t.setSupply(contract, new(big.Int).Add(t.TotalSupply(contract), amount))
-	t.Ops++
+	st := t.state(ctx)
+	st.setBal(contract, receiver, new(big.Int).Add(st.BalanceOf(contract, receiver), amount))
+	st.setSupply(contract, new(big.Int).Add(st.TotalSupply(contract), amount))
+	st.ops++
 	return nil
 }
 
@@ -341,12 +424,13 @@ func (t *Erc20) ERC20Burn(ctx context.Context, contract, from, account common.Ad
 	if t.fail() {
 		return bankError("erc20: injected failure")
 	}
-	if amount.Sign() < 0 || t.BalanceOf(contract, account).Cmp(amount) < 0 {
+	st := t.state(ctx)
+	if amount.Sign() < 0 || st.BalanceOf(contract, account).Cmp(amount) < 0 {
 		return bankError("erc20: burn amount exceeds balance")
 	}
-	t.setBal(contract, account, new(big.Int).Sub(t.BalanceOf(contract, account), amount))
-	t.setSupply(contract, new(big.Int).Sub(t.TotalSupply(contract), amount))
-	t.Ops++
+	st.setBal(contract, account, new(big.Int).Sub(st.BalanceOf(contract, account), amount))
+	st.setSupply(contract, new(big.Int).Sub(st.TotalSupply(contract), amount))
+	st.ops++
 	return nil
 }
 
@@ -354,11 +438,12 @@ func (t *Erc20) ERC20Transfer(ctx context.Context, contract, from, receiver comm
 	if t.fail() {
 		return bankError("erc20: injected failure")
 	}
-	if amount.Sign() < 0 || t.BalanceOf(contract, from).Cmp(amount) < 0 {
+	st := t.state(ctx)
+	if amount.Sign() < 0 || st.BalanceOf(contract, from).Cmp(amount) < 0 {
 		return bankError("erc20: transfer amount exceeds balance")
 	}
-	t.setBal(contract, from, new(big.Int).Sub(t.BalanceOf(contract, from), amount))
-	t.setBal(contract, receiver, new(big.Int).Add(t.BalanceOf(contract, receiver), amount))
-	t.Ops++
+	st.setBal(contract, from, new(big.Int).Sub(st.BalanceOf(contract, from), amount))
+	st.setBal(contract, receiver, new(big.Int).Add(st.BalanceOf(contract, receiver), amount))
+	st.ops++
 	return nil
 }
